@@ -84,6 +84,18 @@ def _ufunc(name):
 
 def exec_call(d):
     """Execute one call descriptor, return a canonical (json-able header, bytes) result."""
+    out = build_call(d)
+    bk = d.get("backend", "numpy")
+    if bk == "dask" and hasattr(out, "compute"):
+        import dask
+        sched = d.get("_sched")   # perturbation: never part of the descriptor identity
+        with (dask.config.set(scheduler="threads", num_workers=sched) if sched else dask.config.set(scheduler="synchronous")):
+            out = out.compute()
+    return canon(out)
+
+
+def build_call(d):
+    """Make the call; a dask-backed result is returned lazy."""
     import xrspatial as X
     from xrspatial import classify, convolution, focal, local, multispectral as ms, zonal
     t = d["t"]
@@ -156,7 +168,11 @@ def exec_call(d):
         elif t == "perlin":
             out = X.perlin(raster(0, dt, bk, shape=tuple(d["shape"]), nan=False) * 0, seed=d["seed"], freq=tuple(d["freq"]))
         elif t == "gen_terrain":
-            out = X.generate_terrain(raster(0, dt, bk, shape=tuple(d["shape"]), nan=False) * 0, seed=d["seed"], zfactor=d["zfactor"])
+            kw = {}
+            for f, a in (("xr", "x_range"), ("yr", "y_range"), ("fe", "full_extent")):
+                if d.get(f) is not None:
+                    kw[a] = tuple(d[f])
+            out = X.generate_terrain(raster(0, dt, bk, shape=tuple(d["shape"]), nan=False) * 0, seed=d["seed"], zfactor=d["zfactor"], **kw)
         elif t == "spectral":
             a, b, c = raster(d["rid"], dt, bk), raster(d["rid"] + 1, dt, bk), raster(d["rid"] + 2, dt, bk)
             if d["fn"] == "evi":
@@ -175,12 +191,7 @@ def exec_call(d):
             out = local.cell_stats(ds, func=d["func"]) if d["fn"] == "cell_stats" else getattr(local, d["fn"])(ds, "a")
         else:
             raise KeyError(t)
-    if bk == "dask" and hasattr(out, "compute"):
-        import dask
-        sched = d.get("_sched")   # perturbation: never part of the descriptor identity
-        with (dask.config.set(scheduler="threads", num_workers=sched) if sched else dask.config.set(scheduler="synchronous")):
-            out = out.compute()
-    return canon(out)
+    return out
 
 
 def canon(out):
@@ -406,7 +417,49 @@ def body_threads(case, ctx):
     return r
 
 
-BODIES = {"seq": body_seq, "threads": body_threads}
+def body_joint(case, ctx):
+    """Several lazy (dask-backed) results built one after the other and evaluated TOGETHER in one dask computation: each must still
+    equal the result of its own call made alone in a fresh interpreter (a result depends only on the arguments of its own call, not on
+    which other results share the task graph)."""
+    import dask
+    r = R()
+    ds = [dict(d) for d in case["ds"]]
+    uniq = {}
+    for d in ds:
+        if key_of(d) not in _BASE:
+            uniq.setdefault(key_of(d), d)
+    if uniq:
+        _BASE.update(fresh_baselines(list(uniq.values())))
+    for d in ds:
+        if _BASE[key_of(d)]["kind"] == "error":
+            raise HarnessError("catalogue descriptor fails in a fresh interpreter: %s\n%s" % (d, _BASE[key_of(d)]["preview"]))
+    try:
+        outs = [build_call(d) for d in ds]
+        lazy = [k for k, o in enumerate(outs) if hasattr(getattr(o, "data", None), "compute")]
+        sched = case.get("sched")
+        with (dask.config.set(scheduler="threads", num_workers=sched) if sched else dask.config.set(scheduler="synchronous")):
+            vals = dask.compute(*[outs[k].data for k in lazy])
+    except Exception as e:  # noqa
+        r.fail("joint_evaluation_raises[%s]" % ds[0]["t"], "%s: %s for descriptors %s (each computes alone in a fresh interpreter)" % (type(e).__name__, e, ds))
+        return r
+    r.label("joint:n=%d" % len(lazy), "joint:how=" + case.get("how", "compute"), *["t=" + d["t"] for d in ds])
+    same_fn = len({d["t"] for d in ds}) < len(ds) and len({key_of(d) for d in ds}) > 1
+    r.nt = len(lazy) >= 2 and same_fn
+    if same_fn:
+        r.label("joint:same_function_other_params")
+    import xarray as xr
+    for k, v in zip(lazy, vals):
+        got = canon(xr.DataArray(np.asarray(v)))
+        base = _BASE[key_of(ds[k])]
+        if got["sha"] != base["sha"] or got.get("dtype") != base.get("dtype") or got.get("shape") != base.get("shape"):
+            r.fail("joint_evaluation_differs_from_fresh_interpreter[%s]" % ds[k]["t"],
+                   "descriptor %s evaluated together with %s\n joint: %s\n fresh interpreter (alone): %s" % (ds[k], [x for i, x in enumerate(ds) if i != k], got, base))
+            return r
+    r.weight = max(1, len(lazy))
+    return r
+
+
+BODIES = {"seq": body_seq, "threads": body_threads, "joint": body_joint}
 
 
 # ---------------------------------------------------------------- strategies
@@ -433,7 +486,9 @@ FIELDS = {
     "terrain": {"fn": ["slope", "aspect", "curvature", "hillshade"], "dtype": DTS, "backend": BKS},
     "astar": {"barriers": [None, [0], [0, 1]], "conn": [4, 8], "snap": [False, True], "dtype": DTS},
     "perlin": {"seed": [0, 1, 2, 3], "freq": [[1, 1], [2, 3]], "shape": [[5, 6], [8, 4]], "dtype": ["float64", "float32"], "backend": BKS},
-    "gen_terrain": {"seed": [0, 1, 2], "zfactor": [4000, 10], "shape": [[5, 6], [8, 4]], "dtype": ["float64"], "backend": BKS},
+    "gen_terrain": {"seed": [0, 1, 2], "zfactor": [4000, 10], "shape": [[5, 6], [8, 4]], "dtype": ["float64"], "backend": BKS,
+                    # x_range / y_range matter only relative to full_extent (tiles of one terrain): the first, default-for-sweeps value is a real extent
+                    "xr": [None, [0, 250], [250, 500]], "yr": [None, [100, 350]], "fe": [[0, 0, 500, 500], None, [0, 0, 1000, 500]]},
     "spectral": {"fn": ["ndvi", "evi", "savi", "nbr"], "p": [1.0, 0.5, 0.0], "dtype": ["float64", "float32", "int32", "uint8"], "backend": BKS},
     "viewshed": {"x": [0.0, 1.5, 3.0], "y": [0.0, 2.0, 5.0], "obs": [0.0, 2.0]},
     "regions": {"conn": [4, 8], "dtype": DTS},
@@ -456,6 +511,9 @@ def _normalise(d):
         d["p"] = (d.get("p") if d.get("p") is not None else 1.0) if d["fn"] in ("evi", "savi") else None
     if d["t"] == "local":
         d["func"] = (d.get("func") or "sum") if d["fn"] == "cell_stats" else None
+    if d["t"] == "gen_terrain":
+        for f in ("xr", "yr", "fe"):
+            d.setdefault(f, None)
     if d["t"] == "classify":
         fn = d["fn"]
         if fn == "binary":
@@ -517,6 +575,23 @@ def sequences(draw, families, max_calls, max_distinct):
     return {"sub": "seq", "steps": steps}
 
 
+DASK_FAMILIES = [t for t, f in FIELDS.items() if "dask" in f.get("backend", []) and t not in ("zstats", "crosstab")]   # raster-valued lazy results
+
+
+@st.composite
+def joint_cases(draw, families):
+    base = dict(draw(descriptor(families)), backend="dask")
+    pool = [_normalise(base)]
+    for _ in range(draw(st.integers(1, 3))):
+        d = draw(variant(draw(st.sampled_from(pool)))) if draw(st.integers(0, 5)) else draw(descriptor(families))
+        d = _normalise(dict(d, backend="dask"))
+        if d.get("t") == "classify" and d.get("fn") == "natural_breaks":
+            continue
+        if key_of(d) not in [key_of(x) for x in pool]:
+            pool.append(d)
+    return {"sub": "joint", "ds": pool, "how": "compute", "sched": draw(st.sampled_from([None, None, 4]))}
+
+
 def sweep_cases(families, seed, take):
     """Designed parameter sweeps: for every function of the catalogue and every parameter that function uses, the same call is made with the
     parameter running through its values upwards and then downwards (all other parameters fixed) - histories in which only ONE captured
@@ -558,6 +633,22 @@ def sweep_cases(families, seed, take):
     return first + rest[:int(len(rest) * take)]
 
 
+def joint_sweep_cases(families):
+    """Designed joint evaluations: for every dask-capable function and every parameter it uses, the calls that differ in that ONE parameter
+    (all its catalogue values, everything else fixed) are built lazily and computed together."""
+    for c in sweep_cases(families, 0, 1.0):
+        ds, seen = [], set()
+        for s_ in c["steps"]:
+            d = _normalise(dict(s_["d"], backend="dask"))
+            if d["t"] == "classify" and d.get("fn") == "natural_breaks":
+                continue
+            if key_of(d) not in seen:
+                seen.add(key_of(d))
+                ds.append(d)
+        if len(ds) >= 2 and c["designed"].rsplit(".", 1)[1] != "backend":
+            yield {"sub": "joint", "ds": ds, "how": "compute", "sched": None, "designed": "joint_" + c["designed"]}
+
+
 def alt_prox_cases(fn):
     """Designed histories for the closure-compiled proximity kernels: for every (metric, target_values) the same function is called on a small
     raster with a limit beyond its diagonal, then on a larger raster without limit, with a small limit, and again without."""
@@ -592,6 +683,16 @@ def shards(tier):
         take = 0.1 if tier == "quick" else 1.0
         out.append(("sweep_%s" % "+".join(fams)[:24], lambda ctx, fams=fams, take=take: drive_enum(
             ctx, body_seq, sweep_cases(fams, ctx.seed, take), space="designed one-parameter sweeps (%s), fraction %.2f" % ("+".join(fams), take))))
+    gens = ["perlin", "gen_terrain"]
+    rest = [t for t in DASK_FAMILIES if t not in gens]
+    njoint = 6 if tier == "quick" else 40
+    out.append(("joint_generators", lambda ctx: drive_hypothesis(ctx, body_joint, joint_cases(gens), njoint, shrink=(tier == "thorough"))))
+    for bi in range(2):
+        out.append(("joint_rasterfns#%d" % bi, lambda ctx, bi=bi: drive_hypothesis(ctx, body_joint, joint_cases(rest[bi::2]), njoint, shrink=(tier == "thorough"))))
+    groups = [["perlin", "gen_terrain"], ["prox"], ["focal_apply", "focal_stats", "conv"], ["focal_mean", "hotspots", "terrain"], ["classify", "spectral"]]
+    for gi, g in enumerate(groups):
+        out.append(("joint_sweep_%s" % "+".join(g)[:24], lambda ctx, g=g: drive_enum(
+            ctx, body_joint, joint_sweep_cases(g), space="designed joint evaluations: one-parameter families of lazy results (%s)" % "+".join(g))))
     for fn in ("proximity", "allocation", "direction"):
         out.append(("alt_prox_%s" % fn, lambda ctx, fn=fn: drive_enum(ctx, body_seq, alt_prox_cases(fn), space="designed proximity alternation histories (%s)" % fn, size=4)))
     for bi in range(2):
@@ -603,7 +704,7 @@ def shards(tier):
 
 LEVEL_TEXT = ("Stateful search: generated histories of parametrised public calls (with RNG / thread-count / scheduler perturbations) inside one warm process, every "
               "step compared exactly with the same call made alone in a fresh interpreter; defaults/module tables re-inspected after every step; prange kernels "
-              "re-run under 1/4/16 threads.")
+              "re-run under 1/4/16 threads; groups of lazy dask results are evaluated in one joint computation and each compared with its own fresh-interpreter result.")
 LEVEL_NOTE = ("Histories are bounded and sampled (each fresh-interpreter baseline costs seconds, so a quick run covers tens of distinct calls, thorough hundreds); "
               "thread interleavings are sampled, not enumerated; the worker process keeps its history across cases on purpose.")
 TECHNIQUE = "stateful property-based testing with a fresh-interpreter differential oracle (one subprocess per distinct call descriptor)"
